@@ -8,7 +8,8 @@ from ..srcmodel import AnalysisError
 from ..cfg import cfg_of
 from ..atoms import Atomizer
 from .. import astutil as A
-from .common_node import closed_connections_are_removed
+from .common_node import (closed_connections_are_removed, disconnect_record,
+                          peer_connection_ownership)
 
 TECHNIQUE = "resource pairing over the connection tables + ownership (contradiction) rule + CFG dominance"
 EXPLANATION = (
@@ -118,109 +119,11 @@ def run(ctx: Ctx):
         ctx.fail("close_connection_socket:closes#conn", ccs.loc(), "the connection object (and its "
                  "two worker threads) is never closed")
 
-    # ---------------- R3 ownership of Peer.connection --------------------------
-    ctx.rule("C13-R3", "Peer.connection is set only when unset and cleared only by its owner",
-             floor=3)
-    at_cache = {}
-    for f in nc.all_funcs:
-        sets = []
-        for n in A.walk_no_nested(f.node):
-            if isinstance(n, ast.Assign):
-                for t in n.targets:
-                    if isinstance(t, ast.Attribute) and t.attr == "connection":
-                        sets.append((n, t))
-        if not sets:
-            continue
-        g = cfg_of(f)
-        at = Atomizer(model, f.module, nc)
-        for st, t in sets:
-            recv = ast.unparse(t.value)
-            node = [n for n in g.nodes if n.ast is st][0]
-            is_clear = isinstance(st.value, ast.Constant) and st.value.value is None
-            cons = f"{f.qualname}:{'clear' if is_clear else 'set'}({recv}.connection)"
-            ctx.inst(cons, sample={"where": g.loc(node), "stmt": node.text(80)})
-            subj = f"{recv}.connection"
-            if is_clear:
-                owner = [a.arg for a in f.node.args.args][1] if len(f.node.args.args) > 1 else None
-
-                def pred(a):
-                    if a.subject == subj and a.op == "is" and a.value is None:
-                        return True
-                    if a.subject == subj and a.op in ("is-expr",) and a.value == owner:
-                        return True
-                    if a.op == "==x" and {a.subject, a.value} == {subj, owner}:
-                        return True
-                    return None
-                if not at.guarded(g, node, pred):
-                    ctx.fail(cons, g.loc(node),
-                             f"{subj} is cleared without checking that the removed connection "
-                             f"`{owner}` is the peer's own (`{subj} is {owner}`): removing a second "
-                             f"connection of an already connected peer orphans the live one "
-                             f"(Peer.connection None although a ready connection exists; the peer "
-                             f"is dialled again)")
-            else:
-                def pred(a):
-                    if a.subject == subj and a.op == "truthy":
-                        return False
-                    if a.subject == subj and a.op == "is" and a.value is None:
-                        return True
-                    return None
-                if not at.guarded(g, node, pred):
-                    ctx.fail(cons, g.loc(node),
-                             f"{subj} is overwritten although the peer may already have a live "
-                             f"connection: the earlier connection loses its owner record; when "
-                             f"the newer one closes the peer counts as disconnected")
-
-    # ---------------- R4 disconnect record --------------------------------------
-    ctx.rule("C13-R4", "the disconnect record is written with the owner clear and reset on "
-                       "assignment", floor=3)
+    peer_connection_ownership(ctx, "C13-R3")
+    disconnect_record(ctx, "C13-R4")
     g = cfg_of(rem)
-    at = Atomizer(model, rem.module, nc)
     clears = [n for n in g.nodes if n.kind == "stmt" and isinstance(n.ast, ast.Assign)
               and any(isinstance(t, ast.Attribute) and t.attr == "connection" for t in n.ast.targets)]
-    ld = [n for n in g.nodes if n.kind == "stmt" and any(
-        isinstance(t, ast.Attribute) and t.attr == "last_disconnect" for t in n.stores())]
-    dr = [n for n in g.nodes if n.kind == "stmt" and any(
-        isinstance(t, ast.Attribute) and t.attr == "disconnect_reason" for t in n.stores())]
-    ctx.inst("remove_peer_connection:last_disconnect")
-    if not clears or not ld or not all(g.always_followed(c, ld) or g.dominated(c, ld) for c in clears):
-        ctx.fail("remove_peer_connection:last_disconnect", rem.loc(),
-                 "clearing Peer.connection is not accompanied by storing last_disconnect: the "
-                 "reconnect timer of a persistent peer never starts")
-    elif not all("time" in ast.unparse(n.ast.value) for n in ld):
-        ctx.fail("remove_peer_connection:last_disconnect", g.loc(ld[0]), "last_disconnect is not a time stamp")
-    ctx.inst("remove_peer_connection:disconnect_reason")
-    rparams = [a.arg for a in rem.node.args.args]
-    ok = False
-    for n in dr:
-        recv = ast.unparse([t for t in n.stores() if isinstance(t, ast.Attribute)][0].value)
-        v = n.ast.value
-        if isinstance(v, ast.Name) and v.id in rparams and at.guarded(
-                g, n, lambda a, s=f"{recv}.disconnect_reason": True
-                if (a.subject == s and a.op == "is" and a.value is None) else
-                (False if (a.subject == s and a.op == "truthy") else None)):
-            ok = True
-    if not ok or not all(g.always_followed(c, ld) for c in clears):
-        ctx.fail("remove_peer_connection:disconnect_reason", rem.loc(),
-                 "disconnect_reason is not stored from the caller's reason when (and only when) "
-                 "it is still unset")
-    for f in (add, asg):
-        g2 = cfg_of(f)
-        sets = [n for n in g2.nodes if n.kind == "stmt" and isinstance(n.ast, ast.Assign)
-                and any(isinstance(t, ast.Attribute) and t.attr == "connection"
-                        for t in n.ast.targets)
-                and not (isinstance(n.ast.value, ast.Constant) and n.ast.value.value is None)]
-        resets = [n for n in g2.nodes if n.kind == "stmt" and isinstance(n.ast, ast.Assign)
-                  and any(isinstance(t, ast.Attribute) and t.attr == "disconnect_reason"
-                          for t in n.ast.targets)
-                  and isinstance(n.ast.value, ast.Constant) and n.ast.value.value is None]
-        cons = f"{f.qualname}:reset-disconnect-reason"
-        ctx.inst(cons)
-        for s in sets:
-            if not (g2.dominated(s, resets) or g2.always_followed(s, resets)):
-                ctx.fail(cons, g2.loc(s), "a connection is assigned to the peer without resetting "
-                         "disconnect_reason: a peer that was disconnected by DPR is never "
-                         "re-dialled after a later loss")
 
     # ---------------- R5 readiness ----------------------------------------------
     ctx.rule("C13-R5", "assignment precedes the ready flag; readiness is set per matching peer "
